@@ -7,8 +7,9 @@ for p in sorted(glob.glob(os.path.join(V, 'seeded', '*', 'meta.json'))):
     m = json.load(open(p))
     c = m.get('confirmed', {})
     ok = c and c.get('demo_passes_without_change') and c.get('builds_with_change') and c.get('demo_fails_with_change') and not c.get('existing_suite_failures_other_than_TestUT_submodule')
+    conf = 'yes' if ok else ('yes; ' + m['confirm_note'] if m.get('confirm_note') else 'see confirm.log')
     rows.append('| %s | %s | %s | %s | %s | %s |' % (m['id'], m['property'], m.get('what_the_change_is', '').replace('|', '/'), m.get('needs_in_order_to_manifest', '').replace('|', '/'),
-                'yes' if ok else 'see confirm.log', m.get('result_against_checks', '').replace('|', '/')))
+                conf, m.get('result_against_checks', '').replace('|', '/')))
 print('| id | property | the change | what it needs to manifest | confirmed (builds, suite passes, demo fails with / passes without) | result of `./check` |')
 print('|---|---|---|---|---|---|')
 print('\n'.join(rows))
